@@ -138,7 +138,7 @@ class Repeat(Expression):
                 # Save pos before trivia
                 gen.writeln(f"{trivia_pos} = state.pos")
                 # Parse trivia after item
-                gen.writeln(f"parse_trivia(state, {tmp_pairs})")
+                gen.writeln(f"skip_trivia(state, {tmp_pairs})")
             gen.writeln("else:")
             with gen.block():
                 # Restore checkpoint and also rewind trivia pos
